@@ -70,7 +70,6 @@ import numpy as np
 
 from mc.result import Result
 from mc import catalog as K
-from mc.lattice import chunks
 from mc.oracles import geometry as G
 from mc.oracles import wcsref as W
 
@@ -580,7 +579,7 @@ def check_config(res, spec, ws, index=0, pre=None):
     rotated = ws['rot'] % 360.0 != 0.0
     for name, val in (('cls', cls), ('proj', ws['proj']), ('rot', ws['rot']), ('scale', ws['scale']), ('flip', ws['flip']),
                       ('frame', ws['frame']), ('crval', tuple(ws['crval'])),
-                      ('offset', (pts[0][0] - W.REFPIX[0], pts[0][1] - W.REFPIX[1])),
+                      ('offset', min(OFFSETS, key=lambda o: math.hypot(pts[0][0] - W.REFPIX[0] - o[0], pts[0][1] - W.REFPIX[1] - o[1]))),
                       ('include', spec.get('include', 'absent' if cls != 'compound' else 'inherit')),
                       ('decorated', bool(spec.get('meta')))):
         res.axis(name, val)
